@@ -39,11 +39,13 @@ the cursor keeps its screen coordinates, clamped into the new grid.  Every row o
 cells: a later write to one cell changes that cell only.  The *colours* of cells created by a resize are not
 determined by anything in the statement: wildcard ANY for both.  A pending last-column flag becomes unknown.
 
-NON-COLOUR RENDITIONS.  SGR 4/5/7 and 24/25/27 (underline, blink, negative image and their resets) never change
-the selected colours; they are tracked so that "a later SGR leaves the colours selected earlier unchanged" is
-checked in their presence too, and a printed cell carries exactly the renditions in force (erased blanks: not
-constrained while one is in force).  SGR 1/22 (bold) stays outside the subset: terminals of the family
-legitimately show bold + one of the 8 basic colours as the bright colour.
+NON-COLOUR RENDITIONS.  SGR 1/4/5/7 (the VT100's own: bold, underline, blink, negative image) and 24/25/27 never
+change the selected colours; they are tracked so that "a later SGR leaves the colours selected earlier unchanged"
+is checked in their presence too, and a printed cell carries exactly the renditions in force (erased blanks: not
+constrained while one is in force).  One legitimate variant: terminals of the family show bold + one of the 8
+basic colours either as that colour or as its bright twin (Linux console, xterm boldColors), so the foreground of
+a cell printed in that state is ("bold-basic", n): n or n + 8 (`colour_matches`); bright, 256-colour, 24-bit and default foregrounds are not
+affected by bold in any of them.  SGR 22 (ECMA-48, not VT100) stays outside the subset.
 """
 from __future__ import annotations
 
@@ -83,7 +85,16 @@ def denoted(colour):
     return rgb(v, v, v)
 
 
-_STYLE_ON = {4: "underline", 5: "blink", 7: "standout"}
+def colour_matches(got, want):
+    """Does the observed colour `got` (None | ("idx", n) | ("rgb", v)) satisfy the reference's `want`?"""
+    if want is ANY:
+        return True
+    if want is not None and want[0] == "bold-basic":
+        return got in (idx(want[1]), idx(want[1] + 8))
+    return denoted(got) == denoted(want)
+
+
+_STYLE_ON = {1: "bold", 4: "underline", 5: "blink", 7: "standout"}
 _STYLE_OFF = {24: "underline", 25: "blink", 27: "standout"}
 
 
@@ -95,7 +106,7 @@ class VT100:
         self.opt_il_dl_cr = il_dl_carriage_return
         self.fg = None  # None = default colour
         self.bg = None
-        self.styles = frozenset()  # of "underline", "blink", "standout" (negative image)
+        self.styles = frozenset()  # of "bold", "underline", "blink", "standout" (negative image)
         self.grid = [[(" ", ANY, None, frozenset()) for _ in range(width)] for _ in range(height)]
         self.x = self.y = 0
         self.wrap_pending = False  # True / False / None (unknown)
@@ -149,7 +160,10 @@ class VT100:
             self.x = 0
             self._index()
             self.wrap_pending = False
-        self.grid[self.y][self.x] = (ch, self.fg, self.bg, self.styles)
+        fg = self.fg
+        if "bold" in self.styles and fg is not None and fg[0] == "idx" and fg[1] < 8:
+            fg = ("bold-basic", fg[1])  # bold + one of the 8 basic colours: that colour or its bright twin (legitimate variants)
+        self.grid[self.y][self.x] = (ch, fg, self.bg, self.styles)
         if self.x == self.w - 1:
             self.wrap_pending = True
         else:
